@@ -35,7 +35,7 @@ def np2tp(dt):
 
 
 class V:
-    __slots__ = ("name", "arrs", "kind", "mag", "clean", "seq", "decl", "nondet", "ddshape")
+    __slots__ = ("name", "arrs", "kind", "mag", "clean", "seq", "decl", "nondet", "ddshape", "sym")
 
     def __init__(self, name, arrs, kind, mag=INPUT_MAG, clean=True, seq=False, decl=None, nondet=False, ddshape=False):
         self.name, self.arrs, self.kind = name, arrs, kind
@@ -44,6 +44,9 @@ class V:
         # the SHAPE observed at generation time depends on input data (NonZero and anything computed from it): it must
         # not be declared as a static shape (a declaration the optimizer may rely on would be a lie for other inputs)
         self.ddshape = ddshape
+        # symbolic mode: the value's shape may depend on a symbolic input dim (an ancestor has one). Being equal under the two
+        # generation bindings does not make such a shape static (Slice(x[?x3], 0, 5) has 5 rows for ?=7 and ?=6, 1 row for ?=1)
+        self.sym = False
 
     @property
     def a(self):
@@ -240,6 +243,7 @@ class Gen:
             v = V(o, arrs, "node", mag=in_mag if mag is None else mag, clean=c, seq=seq,
                   nondet=(any(i.nondet for i in ins if i is not None) and tag not in ("Shape", "Size")) or bool(getattr(self, "_mark_nondet", False)),
                   ddshape=tag in ("NonZero", "Compress", "Unique") or any(i.ddshape for i in ins if i is not None) or bool(getattr(self, "_mark_dd", False)))
+            v.sym = any(i.sym for i in ins if i is not None) or bool(getattr(self, "_mark_sym", False))
             vs.append(v)
             self.vals.append(v)
         if tag:
@@ -275,6 +279,7 @@ class Gen:
                     conc.append(d)
             arrs.append(example_input(rng, dtype, conc))
         v = V(name, arrs, "input", mag=INPUT_MAG if np.dtype(dtype).kind != "b" else 1.0, clean=True, decl=list(shape))
+        v.sym = any(not isinstance(d, int) for d in shape)
         self.inputs.append(v)
         self.vals.append(v)
         self.hit("input")
@@ -1264,12 +1269,15 @@ def op_if(g, max_body=4):
     g._mark_nondet = nd
     g._mark_dd = any(v.ddshape for sub, _ in branches for v in sub.vals) or any(
         (g.lookup(r) is not None and g.lookup(r).ddshape) for sub, _ in branches for r in sub.captured)
+    g._mark_sym = any(v.sym for sub, _ in branches for v in sub.vals) or any(
+        (g.lookup(r) is not None and g.lookup(r).sym) for sub, _ in branches for r in sub.captured)
     try:
         v = g.add_nodes([node], [out], [cond], mag=max(b[1][0].mag for b in branches),
                         clean=all(b[1][0].clean for b in branches), tag="If")
     finally:
         g._mark_nondet = False
         g._mark_dd = False
+        g._mark_sym = False
     return v
 
 
@@ -1310,11 +1318,13 @@ def op_loop(g, max_body=3):
     node = oh.make_node("Loop", [M.name, condv.name if condv else "", x.name], outs, body=body)
     g._mark_nondet = any(v.nondet for v in sub.vals) or any((g.lookup(r) is not None and g.lookup(r).nondet) for r in sub.captured)
     g._mark_dd = any(v.ddshape for v in sub.vals) or any((g.lookup(r) is not None and g.lookup(r).ddshape) for r in sub.captured)
+    g._mark_sym = any(v.sym for v in sub.vals) or any((g.lookup(r) is not None and g.lookup(r).sym) for r in sub.captured)
     try:
         vs = g.add_nodes([node], outs, [M, x] + ([condv] if condv else []), mag=x.mag * 64 + 64, tag="Loop")
     finally:
         g._mark_nondet = False
         g._mark_dd = False
+        g._mark_sym = False
     return vs[0] if isinstance(vs, list) else vs
 
 
@@ -1475,7 +1485,7 @@ def finish(g, n_outputs=None, name="gen"):
         elif v.kind == "node" and v.decl is not None:
             # a motif that knows the symbolic shape of its result (same shape as one of the inputs) declares it
             gout.append(oh.make_tensor_value_info(v.name, np2tp(v.dtype), list(v.decl)))
-        elif v.static():
+        elif v.static() and not (g.symbolic and v.sym):
             gout.append(oh.make_tensor_value_info(v.name, np2tp(v.dtype), list(v.shape)))
         else:
             gout.append(oh.make_tensor_value_info(v.name, np2tp(v.dtype), [None] * v.rank))
